@@ -223,6 +223,69 @@ theorem T09_star_is_run (n mid : Nat) (queue : List RGate) (s : RState)
     simp only [ht, Option.map_some, Option.some.injEq] at h
     exact ⟨as, rfl, h.symm⟩
 
+/-! ### `_create_dag` -/
+
+theorem dagEdgesFrom_go_forward (idx : Nat) (gate : List Nat) (sat : List Nat) (k : Nat)
+    (later : List (List Nat)) :
+    ∀ e ∈ dagEdgesFrom.go idx gate sat k later, e.1 = idx ∧ k ≤ e.2 ∧ e.2 < k + later.length := by
+  induction later generalizing sat k with
+  | nil => intro e he; simp [dagEdgesFrom.go] at he
+  | cons p ps ih =>
+    intro e he
+    unfold dagEdgesFrom.go at he
+    simp only at he
+    split at he
+    · simp only [List.mem_map] at he
+      obtain ⟨_, _, rfl⟩ := he
+      exact ⟨rfl, Nat.le_refl _, by simp⟩
+    · simp only [List.mem_append, List.mem_map] at he
+      rcases he with ⟨_, _, rfl⟩ | he
+      · exact ⟨rfl, Nat.le_refl _, by simp⟩
+      · obtain ⟨h1, h2, h3⟩ := ih _ _ e he
+        refine ⟨h1, by omega, ?_⟩
+        simp only [List.length_cons]; omega
+
+/-- the dependency graph only has forward edges between existing blocks, hence is acyclic
+    and every topological order starts from blocks without predecessors. -/
+theorem T09_dag_forward_partial (i : Nat) (pairs : List (List Nat)) :
+    ∀ e ∈ dagEdges i pairs, i ≤ e.1 ∧ e.1 < e.2 ∧ e.2 < i + pairs.length := by
+  induction pairs generalizing i with
+  | nil => intro e he; simp [dagEdges] at he
+  | cons g rest ih =>
+    intro e he
+    simp only [dagEdges, List.mem_append] at he
+    rcases he with he | he
+    · obtain ⟨h1, h2, h3⟩ := dagEdgesFrom_go_forward i g [] (i + 1) rest e he
+      simp only [List.length_cons]
+      omega
+    · obtain ⟨h1, h2, h3⟩ := ih (i + 1) e he
+      simp only [List.length_cons]
+      omega
+
+/-- reachability in an edge list. -/
+inductive Reach (E : List (Nat × Nat)) : Nat → Nat → Prop
+  | edge {a b} : (a, b) ∈ E → Reach E a b
+  | trans {a b c} : Reach E a b → Reach E b c → Reach E a c
+
+/-- FULL STATEMENT (not proved here; checked on every run by the closure comparison of the
+    real `_create_dag` with the dependency relation and by `pickCheck` on every recorded
+    execution order): two blocks that share a qubit are ordered by the DAG. -/
+def T09_dag_statement : Prop :=
+  ∀ (pairs : List (List Nat)), (∀ p ∈ pairs, ∃ a b, a ≠ b ∧ p = [a, b]) →
+    ∀ i j q, i < j → j < pairs.length → q ∈ pairs.getD i [] → q ∈ pairs.getD j [] →
+      Reach (dagEdges 0 pairs) i j
+
+/-- FULL STATEMENT (not proved here; the star model is compared with the real router on
+    every run, and the guards of its action list are evaluated by the driver): on a star
+    graph with centre `mid` every action generated by the star loop satisfies its guard. -/
+def T09_star_guards_statement : Prop :=
+  ∀ (n mid : Nat) (queue : List RGate) (as : List Action), mid < n →
+    (∀ g ∈ queue, g.qs.Nodup ∧ ∀ q ∈ g.qs, q < n) →
+    starTrace mid (init n) queue = some as →
+    guardsOk n ((List.range n).map fun x => (mid, x)) (init n) as = true
+
+example : dagEdges 0 [[0, 1], [1, 2], [0, 2]] = [(0, 1), (0, 2), (1, 2)] := by decide
+
 /-! ### non-vacuity -/
 
 /-- a guarded run on the line 0-1-2: CNOT(0,2) needs one SWAP. -/
